@@ -48,6 +48,18 @@ def direct_sites(f):
     return out
 
 
+def _local_adt(g, ty):
+    t = ty
+    for pre in ("&mut ", "&", "*mut ", "*const "):
+        if t.startswith(pre):
+            t = t[len(pre):]
+    t = t.split("<")[0].strip()
+    for a in g.prog.facts.get("adts", []):
+        if a.get("path") == t:
+            return a
+    return None
+
+
 def entry_vocab(g):
     """terms of g's entry vocabulary onto which a caller's knowledge is projected"""
     terms = [guards.ZERO]
@@ -57,6 +69,18 @@ def entry_vocab(g):
             terms.append(("param", n))
         elif mir.ty_mentions_buffer(ty) and (ty.startswith("&") or ty.startswith("*")):
             terms.append(("load", ("param", n), ("size",), ("entry", ("M", "size"))))
+        elif ty.replace(" ", "") in ("core::ops::range::Range<usize>", "core::ops::Range<usize>", "std::ops::Range<usize>"):
+            terms.append(("field", ("param", n), "start"))
+            terms.append(("field", ("param", n), "end"))
+        elif _local_adt(g, ty) is not None and not mir.ty_mentions_buffer(ty) and "::Drain<" not in ty:
+            # a small private struct passed around by value or by reference (CircularSlicePtr): its usize fields
+            adt = _local_adt(g, ty)
+            for fld in adt.get("fields", []):
+                if fld.get("ty") == "usize":
+                    if ty.startswith("&") or ty.startswith("*"):
+                        terms.append(("load", ("param", n), (fld["name"],), ("entry", ("M", fld["name"]))))
+                    else:
+                        terms.append(("field", ("param", n), fld["name"]))
         elif "::Drain<" in ty and ty.startswith("&"):
             # the drain's bookkeeping as the callee finds it (the caller may just have stepped the index iterator)
             for path in guards._DRAIN_FIELDS:
